@@ -9,7 +9,7 @@
 """
 from __future__ import annotations
 from ._thermo import Thermo
-from ._stream import Stream
+from ._stream import Stream, Equations
 from ._thermal_condition import ThermalCondition
 from .indexer import MolarFlowIndexer
 from ._phase import phase_tuple
@@ -210,6 +210,7 @@ class MultiStream(Stream):
                  vlle: Optional[bool]=False, 
                  **phase_flows: Tuple[str, float]):
         self.characterization_factors = {} if characterization_factors is None else characterization_factors
+        self.equations = Equations()
         self._thermal_condition = ThermalCondition(T, P)
         thermo = self._load_thermo(thermo)
         chemicals = thermo.chemicals
